@@ -85,5 +85,62 @@ theorem not_transparent_without_wf :
   refine ⟨fun m => match m with | .expr x => (match x.spec with | .gen _ => "gen" | .ver _ => "ver") | _ => "",
     .expr ⟨"os_name", .eq, "x", false, .gen ⟨.eq, "x"⟩⟩, .expr ⟨"os_name", .eq, "x", false, .ver .any⟩, by decide, by decide⟩
 
+/-! ### functions of several markers
+
+`_merge_single_markers(a, b, cls)`, `cnf(m)`, `dnf(m)`, `intersection(*ms)` and `union(*ms)` are memoised on
+the TUPLE of their arguments; CPython compares the tuples member by member with `==` (`M.beqList`; the class
+argument and keyword-free calls add nothing to compare). The same theorem for such keys. -/
+
+abbrev CacheN (β : Type) := List (List M × β)
+
+def lookupN {β : Type} (c : CacheN β) (k : List M) : Option β :=
+  (c.find? fun p => M.beqList k p.1).map (·.2)
+
+def callN {β : Type} (f : List M → β) (c : CacheN β) (k : List M) : β × CacheN β :=
+  match lookupN c k with
+  | some v => (v, c)
+  | none => (f k, (k, f k) :: c)
+
+def runCachedN {β : Type} (f : List M → β) : CacheN β → List (List M) → List β
+  | _, [] => []
+  | c, k :: ks => (callN f c k).1 :: runCachedN f (callN f c k).2 ks
+
+def CacheOkN {β : Type} (f : List M → β) (c : CacheN β) : Prop := ∀ p ∈ c, C13.AllWFL p.1 ∧ p.2 = f p.1
+
+theorem callN_ok {β : Type} (f : List M → β) (c : CacheN β) (k : List M) (hc : CacheOkN f c) (hk : C13.AllWFL k) :
+    (callN f c k).1 = f k ∧ CacheOkN f (callN f c k).2 := by
+  unfold callN lookupN
+  cases hf : c.find? (fun p => M.beqList k p.1) with
+  | none =>
+    simp only [Option.map_none]
+    refine ⟨by simp, ?_⟩
+    intro p hp
+    simp only [List.mem_cons] at hp
+    rcases hp with hp | hp
+    · subst hp
+      exact ⟨hk, rfl⟩
+    · exact hc p hp
+  | some p =>
+    simp only [Option.map_some]
+    have hmem := List.mem_of_find?_eq_some hf
+    have hb : M.beqList k p.1 = true := by simpa using List.find?_some hf
+    obtain ⟨hw, hv⟩ := hc p hmem
+    refine ⟨?_, hc⟩
+    rw [hv, C13.eqList_of_beq k p.1 hk hw hb]
+
+/-- **transparency for memoised functions of several markers** -/
+theorem history_transparent_tuple {β : Type} (f : List M → β) : ∀ (hist : List (List M)) (c : CacheN β), CacheOkN f c →
+    (∀ k ∈ hist, C13.AllWFL k) → runCachedN f c hist = hist.map f := by
+  intro hist
+  induction hist with
+  | nil => intro _ _ _; rfl
+  | cons k ks ih =>
+    intro c hc hk
+    obtain ⟨h1, h2⟩ := callN_ok f c k hc (hk k (by simp))
+    simp only [runCachedN, List.map_cons, h1]
+    rw [ih _ h2 (fun k' hk' => hk k' (by simp [hk']))]
+
+example : C13.AllWFL [M.any, M.empty] := by simp [C13.AllWFL, C13.AllWF]
+
 end C10
 end DepLogic
